@@ -70,7 +70,7 @@ func (e *refEval) applies(on, typ string) bool {
 
 func (e *refEval) collect(typ string, sels []Sel, order *[]string, acc map[string]*collected) {
 	for _, s := range sels {
-		if !included(s.Dir) {
+		if !included(s.Dir) || !included(s.Dir2) {
 			continue
 		}
 		switch {
@@ -221,6 +221,11 @@ func runReference(c *Case, w *fedgen.World) (interface{}, string) {
 				d.Val = c.Vars[d.Var]
 				out[i].Dir = &d
 			}
+			if s.Dir2 != nil && s.Dir2.Var != "" {
+				d := *s.Dir2
+				d.Val = c.Vars[d.Var]
+				out[i].Dir2 = &d
+			}
 			out[i].Subs = fix(s.Subs)
 		}
 		return out
@@ -274,6 +279,8 @@ func hasPartialUnion(c *Case, frags map[string]FragDef) bool {
 	cov = func(sels []Sel, acc map[string]bool) {
 		for _, s := range sels {
 			switch {
+			case !selIncluded(s, c.Vars):
+				// an excluded fragment covers nothing
 			case s.Spread != "":
 				f := frags[s.Spread]
 				if _, ok := fedgen.ObjTypes[f.On]; ok {
